@@ -80,15 +80,25 @@ class Models:
         def ascending(clos):
             if clos is None:
                 return True
-            try:
-                f = m.closure_fn(clos)
-            except Stuck:
-                return False
+            want_args = r'(?:copy|move) _2, (?:copy|move) _3'
+            if clos[0] == 'fnitem':
+                # a function item as comparator (e.g. `sort_by(compare_or_panic)`): the free function of that name, arguments _1, _2
+                nm = strip_generics(clos[1]).split('::')[-1]
+                fc = [g for g in m.byname.get(nm, []) if '<impl at' not in g.name and len(g.args) == 2]
+                if len(fc) != 1:
+                    return False
+                f = fc[0]
+                want_args = r'(?:copy|move) _1, (?:copy|move) _2'
+            else:
+                try:
+                    f = m.closure_fn(clos)
+                except Stuck:
+                    return False
             body = '\n'.join('\n'.join(l) for l in f.blocks.values())
             calls = re.findall(r'= (<[^\n]*?>::\w+|[\w:<>]+::unwrap)(?:::<[^\n(]*>)?\(([^\n]*?)\) ->', body)
             cmp_ok = [a for cn, a in calls if re.search(r' as (PartialOrd|Ord)>::(partial_cmp|cmp)$', cn)]
             other = [cn for cn, a in calls if not re.search(r' as (PartialOrd|Ord)>::(partial_cmp|cmp)$', cn) and not cn.endswith('unwrap')]
-            return len(cmp_ok) == 1 and not other and re.fullmatch(r'(?:copy|move) _2, (?:copy|move) _3', cmp_ok[0].strip()) is not None
+            return len(cmp_ok) == 1 and not other and re.fullmatch(want_args, cmp_ok[0].strip()) is not None
         if last in ('sort_by', 'sort_unstable_by', 'sort', 'sort_unstable'):
             clos = argv[1] if len(argv) > 1 else None
             if ascending(clos):
